@@ -11,6 +11,8 @@ SCALE_TOL = 1e-3     # memberships under rescaling of the distances
 
 
 
+REGEN = ("constants", "registry", "umapsrc")
+
 def psum64(dists, rho, sigma):
     d = dists[1:].astype(np.float64) - float(rho)
     with np.errstate(over="ignore", invalid="ignore", divide="ignore"):
@@ -87,6 +89,8 @@ def oracle(ctx, U, idx, dist, k, lc, case, sig, rho, vals):
 
 
 def run(ctx):
+    import srcval as _srcval
+    _srcval.validate_umap(ctx, 200 if ctx.thorough else 40, ctx.rng, only="_finite_mean")     # translated `_finite_mean` vs the Python source
     import umap.umap_ as U
     rng = ctx.rng
     ctx.rule = ("random valid kNN distance tables (uniform / clustered / tied / zero-distance duplicates, optional inf "
